@@ -118,6 +118,26 @@ def run(ctx):
     n1 = layer(ctx, "full", 1)
     n2 = layer(ctx, "full", 2)
     ctx.layer("full-alphabet", k_max=2, filters=n0 + n1 + n2, exhaustive=True)
+    # keyword-case variants of every k<=1 filter (TRUE / True / NOT / Eq / NULL ...): same rows as the lower-case spelling
+    nk = 0
+    for t in list(enum_for("full").terms(typed.B, 0)) + list(enum_for("full").terms(typed.B, 1)):
+        cols = colkey(typed.fields_of(t))
+        base = None
+        for vname, tx in [("base", to_odata(t))] + SC.kw_variants(t):
+            try:
+                got = set(harness().select_ids(cols, AstToSqliteSqlVisitor().visit(_ps.parse(_lx.tokenize(tx)))))
+            except Exception as e:  # noqa
+                got = ("EXC", type(e).__name__, str(e)[:120])
+            ctx.count("executions")
+            if vname == "base":
+                base = got
+            else:
+                nk += 1
+                if got != base:
+                    ctx.violation("sqlite:kwcase:%s" % SC.opsig(t), {"text": tx, "term": t, "variant": vname, "base_text": to_odata(t), "alias": None, "cols": list(cols),
+                                                                     "expected": sorted(base)[:20] if isinstance(base, set) else list(base),
+                                                                     "observed": sorted(got)[:20] if isinstance(got, set) else list(got)})
+    ctx.layer("keyword-case", k_max=1, variants=nk, exhaustive=True)
     # history layer: the k<=1 filters serially in ONE process, forward and then in reverse order (module/class-level state)
     hist = list(enum_for("full").terms(typed.B, 0)) + list(enum_for("full").terms(typed.B, 1))
     for t in hist + hist[::-1]:
